@@ -68,10 +68,344 @@ def NothingAfterClose (S : Spec) : List (Nat × Nat) → Bool
     if S.piece p == .closeBegin then rest.all (fun e => S.piece e.2 == .other)
     else NothingAfterClose S rest
 
+
+/-! ### helper lemmas for `sound` -/
+
+def hasClose (S : Spec) (w : List (Nat × Nat)) : Bool := w.any (fun e => S.piece e.2 == .closeBegin)
+
+theorem hasClose_append (S : Spec) (w : List (Nat × Nat)) (e : Nat × Nat) :
+    hasClose S (w ++ [e]) = (hasClose S w || S.piece e.2 == .closeBegin) := by
+  simp [hasClose, List.any_append]
+
+theorem nac_append_noclose (S : Spec) (e : Nat × Nat) :
+    ∀ w, hasClose S w = false → NothingAfterClose S (w ++ [e]) = true := by
+  intro w
+  induction w with
+  | nil =>
+    intro _
+    obtain ⟨t, p⟩ := e
+    simp [NothingAfterClose]
+  | cons x rest ih =>
+    intro h
+    obtain ⟨t, p⟩ := x
+    simp only [hasClose, List.any_cons, Bool.or_eq_false_iff] at h
+    have h2 : hasClose S rest = false := h.2
+    simp only [List.cons_append, NothingAfterClose, h.1]
+    simpa using ih h2
+
+theorem nac_append_other (S : Spec) (e : Nat × Nat) (he : S.piece e.2 = .other) :
+    ∀ w, NothingAfterClose S w = true → NothingAfterClose S (w ++ [e]) = true := by
+  intro w
+  induction w with
+  | nil =>
+    intro _
+    obtain ⟨t, p⟩ := e
+    simp [NothingAfterClose]
+  | cons x rest ih =>
+    intro h
+    obtain ⟨t, p⟩ := x
+    simp only [List.cons_append, NothingAfterClose] at h ⊢
+    split
+    · rename_i hp
+      simp only [hp, if_true] at h
+      simp [List.all_append, he]
+      simpa using h
+    · rename_i hp
+      simp only [hp] at h
+      exact ih (by simpa using h)
+
+theorem set_cases (l : List Nat) (t n' t2 n2 : Nat) (h : (l.set t n')[t2]? = some n2) :
+    (t2 = t ∧ n2 = n') ∨ (t2 ≠ t ∧ l[t2]? = some n2) := by
+  rw [List.getElem?_set] at h
+  split at h
+  · rename_i heq
+    split at h
+    · left; exact ⟨heq.symm, by simpa using h.symm⟩
+    · cases h
+  · rename_i hne
+    right; exact ⟨fun h' => hne h'.symm, h⟩
+
+theorem append_cases (l : List Nat) (e t2 n2 : Nat) (h : (l ++ [e])[t2]? = some n2) :
+    l[t2]? = some n2 ∨ n2 = e := by
+  by_cases hlt : t2 < l.length
+  · rw [List.getElem?_append_left hlt] at h; exact Or.inl h
+  · rw [List.getElem?_append_right (by omega)] at h
+    right
+    cases hk : t2 - l.length with
+    | zero => rw [hk] at h; simpa using h.symm
+    | succ k => rw [hk] at h; simp at h
+
+
+/-- the inductive invariant, over the thread pcs, the value of `CS` and the wire. -/
+def Inv (S : Spec) (a : Ann) (pcs : List Node) (b : Bool) (w : List (Nat × Nat)) : Prop :=
+  (∀ (t n : Nat), pcs[t]? = some n → know a n = .isFalse → b = false) ∧
+  (∀ (t n : Nat), pcs[t]? = some n → know a n = .setByMe → b = true ∧ hasClose S w = false) ∧
+  (b = false → hasClose S w = false) ∧ NothingAfterClose S w = true
+
+theorem inv_move {S : Spec} {a : Ann} {pcs : List Node} {b : Bool} {w : List (Nat × Nat)}
+    (t n' : Nat) (hi : Inv S a pcs b w)
+    (h1 : know a n' = .isFalse → b = false)
+    (h2 : know a n' = .setByMe → b = true ∧ hasClose S w = false) :
+    Inv S a (pcs.set t n') b w := by
+  obtain ⟨i1, i2, i3, i4⟩ := hi
+  refine ⟨?_, ?_, i3, i4⟩
+  · intro t2 n2 hp hk
+    rcases set_cases _ _ _ _ _ hp with ⟨_, rfl⟩ | ⟨_, hp'⟩
+    · exact h1 hk
+    · exact i1 t2 n2 hp' hk
+  · intro t2 n2 hp hk
+    rcases set_cases _ _ _ _ _ hp with ⟨_, rfl⟩ | ⟨_, hp'⟩
+    · exact h2 hk
+    · exact i2 t2 n2 hp' hk
+
+theorem inv_append {S : Spec} {a : Ann} {pcs : List Node} {b : Bool} {w : List (Nat × Nat)}
+    (e : Nat) (hi : Inv S a pcs b w) (he : know a e = .unknown) :
+    Inv S a (pcs ++ [e]) b w := by
+  obtain ⟨i1, i2, i3, i4⟩ := hi
+  refine ⟨?_, ?_, i3, i4⟩
+  · intro t2 n2 hp hk
+    rcases append_cases _ _ _ _ hp with hp' | rfl
+    · exact i1 t2 n2 hp' hk
+    · rw [he] at hk; cases hk
+  · intro t2 n2 hp hk
+    rcases append_cases _ _ _ _ hp with hp' | rfl
+    · exact i2 t2 n2 hp' hk
+    · rw [he] at hk; cases hk
+
+theorem inv_weaker {S : Spec} {a : Ann} {pcs : List Node} {b : Bool} {w : List (Nat × Nat)}
+    {t n : Nat} (n' : Nat) (hi : Inv S a pcs b w) (hp : pcs[t]? = some n)
+    (hw : weaker (know a n') (know a n) = true) :
+    Inv S a (pcs.set t n') b w := by
+  simp only [weaker, Bool.or_eq_true, beq_iff_eq] at hw
+  apply inv_move t n' hi
+  · intro hk
+    rcases hw with hw | hw
+    · rw [hw] at hk; cases hk
+    · exact hi.1 t n hp (hw ▸ hk)
+  · intro hk
+    rcases hw with hw | hw
+    · rw [hw] at hk; cases hk
+    · exact hi.2.1 t n hp (hw ▸ hk)
+
+theorem upd_ne {α : Type} (f : Nat → α) (k : Nat) (v : α) (x : Nat) (h : x ≠ k) : upd f k v x = f x := by
+  simp [upd, h]
+
+theorem upd_eq {α : Type} (f : Nat → α) (k : Nat) (v : α) : upd f k v k = v := by
+  simp [upd]
+
+theorem inv_reach (S : Spec) (P : Prog) (c : Cert) (a : Ann) (h : check S P c a = true) :
+    ∀ g, Reach P g → Inv S a g.pcs (g.flag S.CS) g.wire := by
+  simp only [check, Bool.and_eq_true, List.all_eq_true, decide_eq_true_eq, List.mem_range,
+    beq_iff_eq] at h
+  obtain ⟨⟨⟨⟨hL, hN⟩, hE⟩, hB⟩, hA⟩ := h
+  have hout : ∀ n, P.code.length ≤ n → know a n = .unknown := by
+    intro n hn
+    simp only [know, List.getD_eq_getElem?_getD]
+    rw [List.getElem?_eq_none (by omega)]; rfl
+  have hW : ∀ n, know a n ≠ .unknown → S.W ∈ held c n := by
+    intro n hk
+    by_cases hn : n < P.code.length
+    · have hc := hN n hn
+      simp only [checkNode, Bool.and_eq_true, Bool.or_eq_true, beq_iff_eq] at hc
+      rcases hc.1 with h1 | h1
+      · exact absurd h1 hk
+      · simpa using h1
+    · exact absurd (hout n (Nat.le_of_not_lt hn)) hk
+  intro g hr
+  induction hr with
+  | init =>
+    refine ⟨?_, ?_, ?_, ?_⟩
+    · intro _ _ _ _; rfl
+    · intro t n hp hk
+      have : n ∈ P.boot := List.mem_of_getElem? hp
+      rw [hB n this] at hk; cases hk
+    · intro _; rfl
+    · rfl
+  | step g g' hr hs ih =>
+    have hEx := Lockset.exclusive P c hL g hr
+    -- a thread at a node that claims W excludes knowledge in all other threads
+    have hOther : ∀ (t n : Nat), g.pcs[t]? = some n → know a n ≠ .unknown →
+        ∀ (t2 n2 : Nat), g.pcs[t2]? = some n2 → t2 ≠ t → know a n2 = .unknown := by
+      intro t n hp hk t2 n2 hp2 hne
+      apply Classical.byContradiction
+      intro hk2
+      exact hne (hEx t2 t n2 n S.W hp2 hp (hW n2 hk2) (hW n hk))
+    cases hs with
+    | start e _ he => exact inv_append e ih (hE e he)
+    | thread t n _ _ hpc hst =>
+      by_cases hn : n < P.code.length
+      · have hc := hN n hn
+        simp only [checkNode, Bool.and_eq_true] at hc
+        obtain ⟨-, hc⟩ := hc
+        generalize P.at n = i at hst hc
+        cases hst with
+        | lockOk m ok err _ h1 h2 =>
+          simp only [Instr.succs, List.all_cons, List.all_nil, Bool.and_true, Bool.and_eq_true] at hc
+          exact inv_weaker ok ih hpc hc.1
+        | lockErr m ok err _ =>
+          simp only [Instr.succs, List.all_cons, List.all_nil, Bool.and_true, Bool.and_eq_true] at hc
+          exact inv_weaker err ih hpc hc.2
+        | forceLock m nx _ h1 =>
+          simp only [Instr.succs, List.all_cons, List.all_nil, Bool.and_true] at hc
+          exact inv_weaker nx ih hpc hc
+        | tryYes m y no _ h1 =>
+          simp only [Instr.succs, List.all_cons, List.all_nil, Bool.and_true, Bool.and_eq_true] at hc
+          exact inv_weaker y ih hpc hc.1
+        | tryNo m y no _ h1 =>
+          simp only [Instr.succs, List.all_cons, List.all_nil, Bool.and_true, Bool.and_eq_true] at hc
+          exact inv_weaker no ih hpc hc.2
+        | unlock m nx _ =>
+          simp only [] at hc
+          split at hc
+          · rw [beq_iff_eq] at hc
+            exact inv_weaker nx ih hpc (by simp [weaker, hc])
+          · exact inv_weaker nx ih hpc hc
+        | testT f x y _ h1 =>
+          simp only [] at hc
+          split at hc
+          · simp only [Bool.and_eq_true] at hc
+            exact inv_weaker x ih hpc hc.1
+          · simp only [Bool.and_eq_true] at hc
+            exact inv_weaker x ih hpc hc.1
+        | testF f x y _ h1 =>
+          simp only [] at hc
+          split at hc
+          · rename_i hf
+            rw [beq_iff_eq] at hf
+            subst hf
+            simp only [Bool.and_eq_true, Bool.or_eq_true, beq_iff_eq] at hc
+            apply inv_move t y ih
+            · intro _; exact h1
+            · intro hk
+              rcases hc.2 with (h3 | h3) | h3
+              · rw [h3] at hk; cases hk
+              · rw [h3.1] at hk; cases hk
+              · have := (ih.2.1 t n hpc (h3 ▸ hk)).1
+                rw [h1] at this; cases this
+          · simp only [Bool.and_eq_true] at hc
+            exact inv_weaker y ih hpc hc.2
+        | set f v nx _ =>
+          simp only [] at hc
+          split at hc
+          · rename_i hf
+            rw [beq_iff_eq] at hf
+            subst hf
+            simp only [Bool.and_eq_true, Bool.or_eq_true, beq_iff_eq] at hc
+            obtain ⟨⟨⟨hv, -⟩, hk⟩, hnx⟩ := hc
+            have hkn : know a n ≠ .unknown := by rw [hk]; intro h'; cases h'
+            have hb : g.flag S.CS = false := ih.1 t n hpc hk
+            have hcl : hasClose S g.wire = false := ih.2.2.1 hb
+            show Inv S a (g.pcs.set t nx) (upd g.flag S.CS v S.CS) g.wire
+            rw [upd_eq, hv]
+            refine ⟨?_, ?_, ?_, ih.2.2.2⟩
+            · intro t2 n2 hp2 hk2
+              rcases set_cases _ _ _ _ _ hp2 with ⟨_, rfl⟩ | ⟨hne, hp'⟩
+              · rcases hnx with h3 | h3 <;> (rw [h3] at hk2; cases hk2)
+              · rw [hOther t n hpc hkn t2 n2 hp' hne] at hk2; cases hk2
+            · intro t2 n2 hp2 hk2
+              rcases set_cases _ _ _ _ _ hp2 with ⟨_, rfl⟩ | ⟨hne, hp'⟩
+              · exact ⟨rfl, hcl⟩
+              · rw [hOther t n hpc hkn t2 n2 hp' hne] at hk2; cases hk2
+            · intro h'; cases h'
+          · rename_i hf
+            have hne : S.CS ≠ f := by
+              intro h'; apply hf; rw [h']; exact beq_self_eq_true f
+            show Inv S a (g.pcs.set t nx) (upd g.flag f v S.CS) g.wire
+            rw [upd_ne _ _ _ _ hne]
+            exact inv_weaker nx ih hpc hc
+        | casWon f x y _ h1 =>
+          simp only [Bool.and_eq_true, bne_iff_ne, ne_eq] at hc
+          have hne : S.CS ≠ f := fun h' => hc.1.1 h'.symm
+          show Inv S a (g.pcs.set t x) (upd g.flag f true S.CS) g.wire
+          rw [upd_ne _ _ _ _ hne]
+          exact inv_weaker x ih hpc hc.1.2
+        | casLost f x y _ h1 =>
+          simp only [Bool.and_eq_true] at hc
+          exact inv_weaker y ih hpc hc.2
+        | wrOk p ok err _ h1 =>
+          simp only [Bool.and_eq_true] at hc
+          obtain ⟨hc, -⟩ := hc
+          show Inv S a (g.pcs.set t ok) (g.flag S.CS) (g.wire ++ [(t, p)])
+          split at hc
+          · -- dataBegin
+            rename_i hp
+            simp only [Bool.and_eq_true, beq_iff_eq] at hc
+            have hb : g.flag S.CS = false := ih.1 t n hpc hc.1
+            have hcl : hasClose S g.wire = false := ih.2.2.1 hb
+            have hcl' : hasClose S (g.wire ++ [(t, p)]) = false := by
+              rw [hasClose_append, hcl]; simp [hp]
+            have ih' : Inv S a g.pcs (g.flag S.CS) (g.wire ++ [(t, p)]) := by
+              refine ⟨ih.1, ?_, fun _ => hcl', nac_append_noclose S _ _ hcl⟩
+              intro t2 n2 hp2 hk2
+              have := (ih.2.1 t2 n2 hp2 hk2).1
+              rw [hb] at this; cases this
+            exact inv_weaker ok ih' hpc hc.2
+          · -- closeBegin
+            rename_i hp
+            simp only [Bool.and_eq_true, beq_iff_eq] at hc
+            have hkn : know a n ≠ .unknown := by rw [hc.1]; intro h'; cases h'
+            obtain ⟨hb, hcl⟩ := ih.2.1 t n hpc hc.1
+            refine ⟨?_, ?_, ?_, nac_append_noclose S _ _ hcl⟩
+            · intro t2 n2 hp2 hk2
+              rcases set_cases _ _ _ _ _ hp2 with ⟨_, rfl⟩ | ⟨hne, hp'⟩
+              · rw [hc.2] at hk2; cases hk2
+              · rw [hOther t n hpc hkn t2 n2 hp' hne] at hk2; cases hk2
+            · intro t2 n2 hp2 hk2
+              rcases set_cases _ _ _ _ _ hp2 with ⟨_, rfl⟩ | ⟨hne, hp'⟩
+              · rw [hc.2] at hk2; cases hk2
+              · rw [hOther t n hpc hkn t2 n2 hp' hne] at hk2; cases hk2
+            · intro h'; rw [hb] at h'; cases h'
+          · -- other
+            rename_i hp
+            have hcl' : hasClose S (g.wire ++ [(t, p)]) = hasClose S g.wire := by
+              rw [hasClose_append]; simp [hp]
+            have ih' : Inv S a g.pcs (g.flag S.CS) (g.wire ++ [(t, p)]) := by
+              refine ⟨ih.1, ?_, ?_, nac_append_other S _ hp _ ih.2.2.2⟩
+              · intro t2 n2 hp2 hk2; rw [hcl']; exact ih.2.1 t2 n2 hp2 hk2
+              · intro hb; rw [hcl']; exact ih.2.2.1 hb
+            exact inv_weaker ok ih' hpc hc
+        | wrErr p ok err _ =>
+          simp only [Bool.and_eq_true] at hc
+          exact inv_weaker err ih hpc hc.2
+        | armOk s own ok cl _ =>
+          simp only [Instr.succs, List.all_cons, List.all_nil, Bool.and_true, Bool.and_eq_true] at hc
+          exact inv_weaker ok ih hpc hc.1
+        | armClosed s own ok cl _ h1 =>
+          simp only [Instr.succs, List.all_cons, List.all_nil, Bool.and_true, Bool.and_eq_true] at hc
+          exact inv_weaker cl ih hpc hc.2
+        | ioOk ok err _ =>
+          simp only [Instr.succs, List.all_cons, List.all_nil, Bool.and_true, Bool.and_eq_true] at hc
+          exact inv_weaker ok ih hpc hc.1
+        | ioErr ok err _ =>
+          simp only [Instr.succs, List.all_cons, List.all_nil, Bool.and_true, Bool.and_eq_true] at hc
+          exact inv_weaker err ih hpc hc.2
+        | spawn e nx _ =>
+          simp only [Bool.and_eq_true, beq_iff_eq] at hc
+          exact inv_append e (inv_weaker nx ih hpc hc.2) hc.1
+        | signal ch nx _ =>
+          simp only [Instr.succs, List.all_cons, List.all_nil, Bool.and_true] at hc
+          exact inv_weaker nx ih hpc hc
+        | awaitOk ch ok to _ h1 =>
+          simp only [Instr.succs, List.all_cons, List.all_nil, Bool.and_true, Bool.and_eq_true] at hc
+          exact inv_weaker ok ih hpc hc.1
+        | awaitTimeout ch ok to _ =>
+          simp only [Instr.succs, List.all_cons, List.all_nil, Bool.and_true, Bool.and_eq_true] at hc
+          exact inv_weaker to ih hpc hc.2
+        | branch ss nx _ hmem =>
+          simp only [Instr.succs] at hc
+          exact inv_weaker nx ih hpc (List.all_eq_true.mp hc nx hmem)
+      · exfalso
+        have hat : P.at n = .done false := by
+          simp only [Prog.at, List.getD_eq_getElem?_getD]
+          rw [List.getElem?_eq_none (Nat.le_of_not_lt hn)]; rfl
+        rw [hat] at hst
+        cases hst
+
 /-- **soundness for every program**: in every reachable state, whichever goroutines are still
 writing, the wire has no data frame and no second close frame after a close frame. -/
 theorem sound (S : Spec) (P : Prog) (c : Cert) (a : Ann) (h : check S P c a = true) :
     ∀ g, Reach P g → NothingAfterClose S g.wire = true := by
-  sorry
+  intro g hr
+  exact (inv_reach S P c a h g hr).2.2.2
 
 end WS.CIR.CloseSent
